@@ -44,12 +44,16 @@ type Case struct {
 	Group      bool       `json:"group"`  // route "mux": register the route (and the middlewares) in a $server->group("/g")
 	Warmup     bool       `json:"warmup"` // serve one request alone to completion before the interleaving
 	Yields     bool       `json:"yields"` // park requests at the verif yield point inside the $_GET lazy fill too
+	Quiet      bool       `json:"quiet"`  // the handler writes no body: its fields go into the X-Out header and its status stays pending, so that what a middleware does to $w AFTER $next (header X-MwA<j> from a local, then the body marker) still reaches the client
+	Gen        string     `json:"gen"`    // generator family (after 3 deadlocked cases of one family the rest of that family is skipped)
+	StepMs     int        `json:"step_ms"` // watchdog: a released request must reach its next gate / finish within this time (default 2000)
 }
 
 type Resp struct {
 	Status int               `json:"status"`
 	XId    string            `json:"xid"`
-	Mw     []string          `json:"mw,omitempty"` // X-Mw<j> header of each middleware
+	Mw     []string          `json:"mw,omitempty"` // X-Mw<j> header of each middleware (set before $next)
+	MwA    []string          `json:"mwa,omitempty"` // X-MwA<j> header of each middleware (set AFTER $next, from a local of the middleware)
 	MwG    string            `json:"mwg,omitempty"` // X-MwG: what the outermost middleware read from $_GET before $next
 	Fields map[string]string `json:"fields"`
 	Body   string            `json:"body,omitempty"`
@@ -77,7 +81,7 @@ var readExpr = map[string]string{
 	"ob_close":  `ob_get_clean()`,
 }
 
-func script(segs [][]string, gates bool) string {
+func script(segs [][]string, gates bool, quiet bool) string {
 	var sb strings.Builder
 	sb.WriteString("class C11Box { public $v; function __construct($v) { $this->v = $v; } }\n")
 	sb.WriteString("function c11_ob_open($id) { ob_start(); echo $id; return $id; }\n")
@@ -94,7 +98,11 @@ func script(segs [][]string, gates bool) string {
 			fmt.Fprintf(&sb, "  $out = $out . \"s%dr%d=\" . %s . \";\";\n", k, j, readExpr[rd])
 		}
 	}
-	sb.WriteString("  $w->header(\"X-Id\", $id);\n  $w->status(200 + $n);\n  $w->write($out);\n}\n")
+	if quiet {
+		sb.WriteString("  $w->header(\"X-Id\", $id);\n  $w->status(200 + $n);\n  $w->header(\"X-Out\", $out);\n}\n")
+	} else {
+		sb.WriteString("  $w->header(\"X-Id\", $id);\n  $w->status(200 + $n);\n  $w->write($out);\n}\n")
+	}
 	return sb.String()
 }
 
@@ -108,16 +116,18 @@ var (
 	gates map[int]*gateState
 )
 
-func gateFn(id int, k int) int {
-	gmu.Lock()
-	g := gates[id]
-	gmu.Unlock()
-	if g == nil {
+// the gate function of ONE case: it captures that case's gate table, so a goroutine left over from an abandoned
+// (deadlocked) case can never park at, or wake, a gate of a later case
+func gateFnFor(gs map[int]*gateState) func(id int, k int) int {
+	return func(id int, k int) int {
+		g := gs[id]
+		if g == nil {
+			return 0
+		}
+		g.arrive <- k
+		<-g.release
 		return 0
 	}
-	g.arrive <- k
-	<-g.release
-	return 0
 }
 
 // the request the scheduler has just released (gated mode runs one request at a time), -1 = none
@@ -159,25 +169,33 @@ func parseBody(b string) map[string]string {
 }
 
 // build the handler: either the Handler value directly, or a real Server's ServeMux with the route registered by script
-func mkHandler(c *Case, withGates bool) (http.Handler, string) {
+func mkHandler(c *Case, withGates bool, gs map[int]*gateState) (http.Handler, string) {
 	vm, p := vrun.NewVM()
 	vm.SetThrowControl(func(acl data.Control) {})
-	if ctl := vm.RegisterFunction("verif_gate", gateFn); ctl != nil {
+	if ctl := vm.RegisterFunction("verif_gate", gateFnFor(gs)); ctl != nil {
 		return nil, "register: " + ctl.AsString()
 	}
-	src := script(c.Segs, withGates)
+	src := script(c.Segs, withGates, c.Quiet)
 	if c.Route == "mux" {
 		src += "$server = new Net\\Http\\Server(\"127.0.0.1\", 0);\n$rt = $server;\n"
 		if c.Group {
 			src += "$rt = $server->group(\"/g\");\n"
 		}
+		// what a middleware does AFTER $next, from its local $mid: normally a body write (which commits the response);
+		// with a quiet handler two headers (nothing is committed before the outermost layer returns)
+		after := func(j int) string {
+			if c.Quiet {
+				return fmt.Sprintf("$w->header(\"X-MwA%d\", $mid); $w->header(\"X-MwB%d\", \"m%db=\" . $mid);", j, j, j)
+			}
+			return fmt.Sprintf("$w->write(\"m%db=\" . $mid . \";\");", j)
+		}
 		for j := 0; j < c.Mw; j++ {
 			if j == 0 && c.MwSG {
 				// registered first = outermost: a scheduling point, then a superglobal read BEFORE $next
-				src += "$rt->middleware(function($r, $w, $next) { $mid = $r->input(\"id\"); verif_gate((int)$mid, 100); $w->header(\"X-MwG\", $_GET[\"id\"]); $w->header(\"X-Mw0\", $mid); $next($r, $w); $w->write(\"m0b=\" . $mid . \";\"); });\n"
+				src += "$rt->middleware(function($r, $w, $next) { $mid = $r->input(\"id\"); verif_gate((int)$mid, 100); $w->header(\"X-MwG\", $_GET[\"id\"]); $w->header(\"X-Mw0\", $mid); $next($r, $w); " + after(0) + " });\n"
 				continue
 			}
-			src += fmt.Sprintf("$rt->middleware(function($r, $w, $next) { $mid = $r->input(\"id\"); $w->header(\"X-Mw%d\", $mid); $next($r, $w); $w->write(\"m%db=\" . $mid . \";\"); });\n", j, j)
+			src += fmt.Sprintf("$rt->middleware(function($r, $w, $next) { $mid = $r->input(\"id\"); $w->header(\"X-Mw%d\", $mid); $next($r, $w); %s });\n", j, after(j))
 		}
 		src += "$rt->post(\"/h\", function($r, $w) { h($r, $w); });\n"
 	}
@@ -236,7 +254,7 @@ func serve(h http.Handler, i int) (r Resp) {
 	rec := httptest.NewRecorder()
 	h.ServeHTTP(rec, mkRequest(i))
 	res := rec.Result()
-	var mw []string
+	var mw, mwa []string
 	for j := 0; j < 4; j++ {
 		if v, ok := res.Header[fmt.Sprintf("X-Mw%d", j)]; ok && len(v) > 0 {
 			mw = append(mw, v[0])
@@ -244,11 +262,24 @@ func serve(h http.Handler, i int) (r Resp) {
 			break
 		}
 	}
-	return Resp{Status: res.StatusCode, XId: res.Header.Get("X-Id"), Mw: mw, MwG: res.Header.Get("X-MwG"), Fields: parseBody(rec.Body.String())}
+	extra := res.Header.Get("X-Out")
+	for j := 0; j < 4; j++ {
+		extra += ";" + res.Header.Get(fmt.Sprintf("X-MwB%d", j))
+	}
+	for j := 0; j < 4; j++ {
+		// "-" keeps the positions aligned when a middleware's after-$next header is missing
+		if v := res.Header.Get(fmt.Sprintf("X-MwA%d", j)); v != "" {
+			mwa = append(mwa, v)
+		} else if j < len(mw) {
+			mwa = append(mwa, "-")
+		}
+	}
+	return Resp{Status: res.StatusCode, XId: res.Header.Get("X-Id"), Mw: mw, MwA: mwa, MwG: res.Header.Get("X-MwG"), Fields: parseBody(rec.Body.String() + ";" + extra)}
 }
 
 func runGated() {
 	out := json.NewEncoder(os.Stdout)
+	deadlocks := map[string]int{}
 	vrun.Lines(func(line string) {
 		if strings.TrimSpace(line) == "" {
 			return
@@ -258,10 +289,23 @@ func runGated() {
 			out.Encode(map[string]any{"err": err.Error()})
 			return
 		}
-		h, e := mkHandler(&c, true)
+		if deadlocks[c.Gen] >= 3 {
+			// the run is failing already: do not spend the watchdog time on every further case of this family
+			out.Encode(map[string]any{"skipped": "3 cases of family " + c.Gen + " deadlocked"})
+			return
+		}
+		gs := map[int]*gateState{}
+		for i := 1; i <= c.NReq; i++ {
+			gs[i] = &gateState{arrive: make(chan int, 1), release: make(chan struct{})}
+		}
+		h, e := mkHandler(&c, true, gs)
 		if e != "" {
 			out.Encode(map[string]any{"err": e})
 			return
+		}
+		stepMs := c.StepMs
+		if stepMs <= 0 {
+			stepMs = 2000
 		}
 		routePath = "/h"
 		if c.Route == "mux" && c.Group {
@@ -273,10 +317,7 @@ func runGated() {
 			node.VerifYieldHook = nil
 		}
 		gmu.Lock()
-		gates = map[int]*gateState{}
-		for i := 1; i <= c.NReq; i++ {
-			gates[i] = &gateState{arrive: make(chan int, 1), release: make(chan struct{})}
-		}
+		gates = gs
 		gmu.Unlock()
 		var warm *Resp
 		if c.Warmup {
@@ -298,11 +339,12 @@ func runGated() {
 			}(i)
 		}
 		var order []int
+		var dead map[string]any
 		step := func(i int) bool {
-			if stage[i] == -1 {
+			if stage[i] == -1 || dead != nil {
 				return false
 			}
-			g := gates[i+1]
+			g := gs[i+1]
 			gmu.Lock()
 			running = i
 			gmu.Unlock()
@@ -319,9 +361,22 @@ func runGated() {
 				stage[i] = k
 			case <-done[i]:
 				stage[i] = -1
-			case <-time.After(20 * time.Second):
-				stage[i] = -1
-				resps[i].Panic = "timeout"
+			case <-time.After(time.Duration(stepMs) * time.Millisecond):
+				// watchdog: the released request neither reached a gate of ITS OWN nor finished.  The case is
+				// abandoned here (its goroutines stay parked at this case's private gates) and reported with
+				// the interleaving executed so far and where every request stood.
+				parked := map[string]int{}
+				for id, og := range gs {
+					select {
+					case k := <-og.arrive:
+						parked[fmt.Sprint(id)] = k // somebody arrived at the gate of request `id` although `i` was released
+					default:
+					}
+				}
+				dead = map[string]any{"released": i, "stage_before": stage[i], "stages": append([]int(nil), stage...),
+					"unexpected_arrivals": parked, "after_ms": stepMs}
+				order = append(order, i)
+				return false
 			}
 			order = append(order, i)
 			return true
@@ -333,11 +388,26 @@ func runGated() {
 		}
 		// finish whatever is left, request by request
 		for i := 0; i < c.NReq; i++ {
-			for stage[i] != -1 {
+			for stage[i] != -1 && dead == nil {
 				step(i)
 			}
 		}
 		node.VerifYieldHook = nil
+		if dead != nil {
+			deadlocks[c.Gen]++
+			// responses of the requests that did finish (a response slot of an unfinished request is never written later:
+			// resps is private to this case and is not read again)
+			fin := map[string]Resp{}
+			for i := 0; i < c.NReq; i++ {
+				select {
+				case <-done[i]:
+					fin[fmt.Sprint(i)] = resps[i]
+				default:
+				}
+			}
+			out.Encode(map[string]any{"deadlock": dead, "order": order, "finished": fin, "warmup": warm})
+			return
+		}
 		out.Encode(map[string]any{"resps": resps, "order": order, "warmup": warm})
 	})
 }
@@ -354,7 +424,7 @@ func runChild() {
 		if c.GoMaxProcs > 0 {
 			runtime.GOMAXPROCS(c.GoMaxProcs)
 		}
-		h, e := mkHandler(&c, false)
+		h, e := mkHandler(&c, false, map[int]*gateState{})
 		if e != "" {
 			out.Encode(map[string]any{"err": e})
 			continue
